@@ -83,7 +83,7 @@ Proof.
   rewrite zenum_snoc, IH, <- app_assoc. reflexivity.
 Qed.
 
-Ltac Rsimp := repeat (rewrite ?R_bind, ?R_ret, ?R_assert, ?R_lift, ?R_raise; cbv beta iota).
+Ltac Rsimp := repeat (rewrite ?R_bind, ?R_ret, ?R_assert, ?R_lift, ?R_raise; cbv beta iota zeta).
 
 (** ---- converter.split_proof: mandatory floating hypotheses in database order *)
 Definition float_labels_for (d:db) (vs:list N) : list label :=
@@ -131,3 +131,374 @@ Proof.
   - Rsimp. reflexivity.
   - Rsimp. rewrite IH by discriminate. Rsimp. reflexivity.
 Qed.
+
+(** ---- literal stack reads *)
+Lemma R_stack_m1 t : R (p_stack_at (- (1))%Z) t = match nth_error (stack (mst t)) 0 with Some x => Some (x, t) | None => None end.
+Proof. exact (R_stack_neg 0 t). Qed.
+Lemma R_stack_m2 t : R (p_stack_at (- (2))%Z) t = match nth_error (stack (mst t)) 1 with Some x => Some (x, t) | None => None end.
+Proof. exact (R_stack_neg 1 t). Qed.
+Lemma R_stack_m3 t : R (p_stack_at (- (3))%Z) t = match nth_error (stack (mst t)) 2 with Some x => Some (x, t) | None => None end.
+Proof. exact (R_stack_neg 2 t). Qed.
+Lemma R_stack_m4 t : R (p_stack_at (- (4))%Z) t = match nth_error (stack (mst t)) 3 with Some x => Some (x, t) | None => None end.
+Proof. exact (R_stack_neg 3 t). Qed.
+
+Lemma R_p_index {A} (l:list A) z t : R (p_index l z) t = match py_index l z with Some x => Some (x, t) | None => None end.
+Proof. apply R_lift. Qed.
+Lemma py_index_0' {A} (x:A) l : py_index (x :: l) 0 = Some x.
+Proof. reflexivity. Qed.
+
+Ltac Rstep :=
+  repeat (rewrite ?R_bind, ?R_ret, ?R_assert, ?R_lift, ?R_raise, ?R_stack_m1, ?R_stack_m2, ?R_stack_m3, ?R_stack_m4,
+                  ?R_top_is, ?R_top2_are, ?R_gdo, ?R_i_load, ?R_p_index, ?py_index_0';
+          cbn [mst stack nth_error is_proved is_pattern is_metavar phi mv_name]; cbv beta iota zeta).
+
+Lemma do_one i t t' : do [i] t = Some t' -> exists s', irun Proof i (mst t) = Some s' /\ t' = mkT s' (heap t) (out t ++ [i]).
+Proof.
+  unfold do. simpl. destruct (irun Proof i (mst t)) as [s'|]; [|discriminate]. intros H. inversion H. eauto.
+Qed.
+
+Lemma gen_do_mp_agree cv t t' : do [OMP] t = Some t' -> R (gen_do_mp cv) t = Some (tt, t').
+Proof.
+  intros H. pose proof H as H0. apply do_one in H0 as [s' [HI _]].
+  destruct t as [[stk mem cl] h o]. simpl in HI.
+  destruct stk as [|[p2|p2] [|[q|q] s]]; try discriminate. destruct q; try discriminate.
+  destruct (pat_eqb q1 p2) eqn:E; [|discriminate].
+  unfold gen_do_mp, i_modus_ponens. Rstep. rewrite !term_eqb_refl'. cbn [andb]. Rstep. rewrite H. Rstep. reflexivity.
+Qed.
+
+(** the save/pop loop over the antecedents *)
+Lemma save_loop_agree (body : list (unit * term) -> pat -> M (list (unit * term))) :
+  (forall acc p t x t1, top t = Some x -> do [OSave; OPop] t = Some t1 -> R (body acc p) t = Some (acc ++ [(tt, x)], t1)) ->
+  forall ants t acc saved t1 gacc,
+  save_pops (length ants) t acc = Some (saved, t1) ->
+  exists new, saved = acc ++ new /\ R (foldM body ants gacc) t = Some (gacc ++ map (fun x => (tt, x)) new, t1).
+Proof.
+  intros HB. induction ants as [|p ants IH]; intros t acc saved t1 gacc H; simpl in H.
+  - inversion H; subst. exists []. rewrite !app_nil_r. split; [reflexivity | apply R_foldM_nil].
+  - destruct (top t) as [x|] eqn:T; [|discriminate]. destruct (do [OSave; OPop] t) as [t0|] eqn:D; [|discriminate].
+    destruct (IH _ _ _ _ (gacc ++ [(tt, x)]) H) as [new [E1 E2]]. exists (x :: new). split.
+    + rewrite E1, <- app_assoc. reflexivity.
+    + rewrite R_foldM_cons, (HB _ _ _ _ _ T D), E2. rewrite <- app_assoc. reflexivity.
+Qed.
+
+Lemma save_body_agree acc (p:pat) t x t1 :
+  top t = Some x -> do [OSave; OPop] t = Some t1 ->
+  R (t34 <- p_stack_at (- (1))%Z ;; t35 <- p_stack_at (- (1))%Z ;; let v := acc ++ [(tt, t35)] in
+     t36 <- p_stack_at (- (1))%Z ;; t37 <- p_stack_at (- (1))%Z ;; t38 <- i_save t37 ;;
+     t39 <- p_stack_at (- (1))%Z ;; t40 <- i_pop t39 ;; ret v)%gen t = Some (acc ++ [(tt, x)], t1).
+Proof.
+  intros T D. destruct t as [[stk mem cl] h o]. unfold top in T. simpl in T. destruct stk as [|y s]; [discriminate|].
+  inversion T; subst y. change [OSave; OPop] with ([OSave] ++ [OPop]) in D. rewrite do_app in D.
+  destruct (do [OSave] _) as [ta|] eqn:D1; [|discriminate].
+  unfold i_save, i_pop. Rstep. rewrite term_eqb_refl'. Rstep. rewrite D1.
+  pose proof D1 as D1'. apply do_one in D1' as [s' [HI ->]]. simpl in HI. inversion HI; subst s'. clear HI.
+  Rstep. rewrite term_eqb_refl'. Rstep. rewrite D. Rstep. reflexivity.
+Qed.
+
+(** the load/mp loop *)
+Lemma mp_loop_agree cv xs : forall t t',
+  mp_all xs t = Some t' ->
+  R (foldM (fun (_:unit) '(v_eh, v_pat) => (t48 <- i_load v_pat ;; t52 <- gen_do_mp cv ;; ret tt)%gen)
+           (map (fun x => (tt, x)) xs) tt) t = Some (tt, t').
+Proof.
+  induction xs as [|x xs IH]; intros t t' H; simpl in H.
+  - inversion H; subst. apply R_foldM_nil.
+  - destruct (load_of x t) as [t1|] eqn:L; [|discriminate]. destruct (do [OMP] t1) as [t2|] eqn:D; [|discriminate].
+    cbn [map]. rewrite R_foldM_cons. cbv beta iota. Rstep. rewrite L. rewrite R_bind, (gen_do_mp_agree cv _ _ D). Rstep.
+    apply IH. exact H.
+Qed.
+
+(** ---- get_delta and the instantiation *)
+Lemma pop_pats_inv n : forall s plugs s2, pop_pats n s = Some (plugs, s2) -> s = map TPat plugs ++ s2 /\ length plugs = n.
+Proof.
+  induction n as [|n IH]; intros s plugs s2 H; simpl in H.
+  - inversion H; subst. split; reflexivity.
+  - destruct s as [|[p|p] s]; try discriminate. destruct (pop_pats n s) as [[ps r]|] eqn:E; [|discriminate].
+    inversion H; subst. destruct (IH _ _ _ E) as [E1 E2]. subst s. simpl. split; [reflexivity | lia].
+Qed.
+
+Lemma dict_set_fresh k v (d:dict) : ~ In k (map fst d) -> dict_set k v d = d ++ [(k, v)].
+Proof.
+  induction d as [|[k' v'] d IH]; simpl; intros H; [reflexivity|].
+  destruct (N.eqb k' k) eqn:E; [apply N.eqb_eq in E; subst; exfalso; apply H; left; reflexivity|].
+  rewrite IH; [reflexivity|]. intros HI. apply H. right. exact HI.
+Qed.
+
+Lemma firstn_S_nth {A} (l:list A) : forall m x, nth_error l m = Some x -> firstn (S m) l = firstn m l ++ [x].
+Proof.
+  induction l as [|y l IH]; intros [|m] x H; simpl in *; try discriminate.
+  - inversion H; reflexivity.
+  - rewrite (IH m x H). reflexivity.
+Qed.
+
+Lemma gen_get_delta_agree cv mvs plugs x s2 t :
+  stack (mst t) = x :: map TPat plugs ++ s2 -> length plugs = length mvs ->
+  (forall v, In v mvs -> memN v (pattern_floats (cv_d cv)) = true) ->
+  NoDup (map (mvid (cv_d cv)) mvs) ->
+  R (gen_get_delta cv mvs) t = Some (combine (map (mvid (cv_d cv)) mvs) (map TPat (rev plugs)), t).
+Proof.
+  intros HS HL HM HN. unfold gen_get_delta. cbv zeta.
+  match goal with |- context [foldM ?f _ _] => set (body := f) end.
+  set (P := map TPat plugs) in *.
+  assert (LP: length P = length mvs) by (unfold P; rewrite map_length; exact HL).
+  assert (G: forall rem (dacc:dict) (j:nat),
+            (j + length rem = length mvs)%nat ->
+            (forall v, In v rem -> memN v (pattern_floats (cv_d cv)) = true) ->
+            NoDup (map (mvid (cv_d cv)) rem) ->
+            (forall k, In k (map fst dacc) -> ~ In k (map (mvid (cv_d cv)) rem)) ->
+            exists j', R (foldM body rem (dacc, Z.of_nat j)) t
+                       = Some ((dacc ++ combine (map (mvid (cv_d cv)) rem) (rev (firstn (length rem) P)), j'), t)).
+  { induction rem as [|v rem IH]; intros dacc j Hj Hm Hn Hd.
+    - eexists. rewrite R_foldM_nil. simpl. rewrite app_nil_r. reflexivity.
+    - rewrite R_foldM_cons. unfold body at 1. cbv beta iota.
+      unfold cv_resolve_metavar. rewrite (Hm v (or_introl eq_refl)). Rsimp.
+      cbn [length] in Hj.
+      replace (- (py_len mvs + 1) + Z.of_nat j)%Z with (- Z.of_nat (S (S (length rem))))%Z by (unfold py_len; lia).
+      rewrite R_stack_neg, HS. cbn [nth_error].
+      assert (LT: (length rem < length P)%nat) by lia.
+      destruct (nth_error P (length rem)) as [pm|] eqn:EN; [|apply nth_error_None in EN; lia].
+      rewrite nth_error_app1 by exact LT. rewrite EN.
+      assert (EPm: exists q, pm = TPat q).
+      { unfold P in EN. rewrite nth_error_map in EN. destruct (nth_error plugs (length rem)); inversion EN. eauto. }
+      destruct EPm as [q ->]. Rsimp. cbn [mv_name phi].
+      inversion Hn as [|? ? Hnv Hn']; subst.
+      rewrite dict_set_fresh by (intros HI; apply (Hd _ HI); left; reflexivity).
+      replace (Z.of_nat j + 1)%Z with (Z.of_nat (S j)) by lia.
+      destruct (IH (dacc ++ [(mvid (cv_d cv) v, TPat q)]) (S j)) as [j' E].
+      + lia.
+      + intros w Hw. apply Hm. right. exact Hw.
+      + exact Hn'.
+      + intros k Hk. rewrite map_app in Hk. apply in_app_or in Hk as [Hk|Hk].
+        * intros HI. apply (Hd _ Hk). right. exact HI.
+        * simpl in Hk. destruct Hk as [<-|[]]. exact Hnv.
+      + exists j'. cbn [is_pattern]. Rsimp. rewrite E. rewrite <- app_assoc. cbn [length map combine].
+        rewrite (firstn_S_nth P _ _ EN), rev_app_distr. reflexivity. }
+  rewrite R_bind. destruct (G mvs dict_empty O) as [j' E]; [reflexivity | exact HM | exact HN | intros k []|].
+  change (Z.of_nat 0) with 0%Z in E. rewrite E. Rsimp.
+  rewrite <- LP, firstn_all. unfold P. rewrite map_rev. reflexivity.
+Qed.
+
+Lemma combine_keys {A B} (a:list A) : forall (b:list B), length a = length b -> map fst (combine a b) = a.
+Proof. induction a; intros [|y b] L; simpl in *; try discriminate; [reflexivity|]. rewrite IHa by lia. reflexivity. Qed.
+Lemma combine_vals {A B} (a:list A) : forall (b:list B), length a = length b -> map snd (combine a b) = b.
+Proof. induction a; intros [|y b] L; simpl in *; try discriminate; [reflexivity|]. rewrite IHa by lia. reflexivity. Qed.
+
+Lemma terms_eqb_refl l : terms_eqb l l = true.
+Proof. induction l; simpl; [reflexivity|]. rewrite term_eqb_refl', IHl. reflexivity. Qed.
+
+Lemma i_instantiate_agree x ids plugs s2 t t' :
+  stack (mst t) = x :: map TPat plugs ++ s2 -> length plugs = length ids ->
+  do [OInst (rev ids)] t = Some t' ->
+  R (i_instantiate x (combine ids (map TPat (rev plugs)))) t = Some (tt, t').
+Proof.
+  intros HS HL D. unfold R, i_instantiate. cbn [g_of g_mst]. rewrite HS.
+  assert (L2: length ids = length (map TPat (rev plugs))) by (rewrite map_length, rev_length; lia).
+  rewrite term_eqb_refl'. rewrite combine_length, <- L2, Nat.min_id.
+  unfold dict_values, dict_keys. rewrite (combine_vals _ _ L2), (combine_keys _ _ L2).
+  assert (E1: Nat.leb (length ids) (length (map TPat plugs ++ s2)) = true)
+    by (apply Nat.leb_le; rewrite app_length, map_length; lia).
+  rewrite E1. rewrite <- HL at 1. rewrite <- (map_length TPat plugs) at 1. rewrite firstn_app, firstn_all, Nat.sub_diag.
+  simpl firstn. rewrite app_nil_r, <- map_rev, terms_eqb_refl. cbn [andb].
+  change (match gdo [OInst (rev ids)] (g_of t) with Some (x0, g) => Some (x0, mkT (g_mst g) (heap t) (g_out g)) | None => None end)
+    with (R (gdo [OInst (rev ids)]) t).
+  rewrite R_gdo, D. reflexivity.
+Qed.
+
+Lemma concl_pat_simple d sid a : simple (concl_pat d sid a) = true.
+Proof. unfold concl_pat. destruct (a_stmt a) as [tc [|t r]]; [reflexivity|]. unfold img. apply img0_simple. Qed.
+
+Lemma do_emit_pat p t t1 : simple p = true -> do (emit_pat p) t = Some t1 -> stack (mst t1) = TPat p :: stack (mst t).
+Proof.
+  intros S D. unfold do in D. rewrite (emit_pat_run Proof p S) in D. inversion D. reflexivity.
+Qed.
+
+Lemma mio_memN d a v : In v (metavars_in_order d a) -> memN v (pattern_floats d) = true.
+Proof. unfold metavars_in_order. intros H. apply filter_In in H as [H _]. apply memN_In. exact H. Qed.
+
+Lemma do_heap_load x t t' : load_of x t = Some t' -> heap t' = heap t.
+Proof. unfold load_of. destruct (find_idx x (memory (mst t))); [apply do_heap | discriminate]. Qed.
+
+Lemma py_index_0 {A} (x:A) l : py_index (x :: l) 0 = Some x.
+Proof. reflexivity. Qed.
+
+Lemma find_idx_some x l : forall i, find_idx x l = Some i -> nth_error l i = Some x.
+Proof.
+  induction l as [|y l IH]; intros i H; simpl in H; [discriminate|].
+  destruct (Instr.term_eqb y x) eqn:E.
+  - inversion H; subst. apply term_eqb_eq in E. subst. reflexivity.
+  - destruct (find_idx x l) as [j|]; [|discriminate]. inversion H; subst. simpl. apply IH. reflexivity.
+Qed.
+
+Lemma load_of_stack x t t' : load_of x t = Some t' -> stack (mst t') = x :: stack (mst t).
+Proof.
+  unfold load_of. destruct (find_idx x (memory (mst t))) as [i|] eqn:F; [|discriminate]. intros D.
+  apply do_one in D as [s' [HI ->]]. cbn [irun] in HI. rewrite Nat2N.id, (find_idx_some _ _ _ F) in HI.
+  inversion HI. reflexivity.
+Qed.
+
+Lemma do_inst_heap d a t t' : do_inst d a t = Some t' -> heap t' = heap t.
+Proof. unfold do_inst. destruct (inst_ids d a); [intros H; inversion H; reflexivity | apply do_heap]. Qed.
+
+Lemma mp_all_heap xs : forall t t', mp_all xs t = Some t' -> heap t' = heap t.
+Proof.
+  induction xs as [|x xs IH]; intros t t' H; simpl in H; [inversion H; reflexivity|].
+  destruct (load_of x t) as [t1|] eqn:L; [|discriminate]. destruct (do [OMP] t1) as [t2|] eqn:D; [|discriminate].
+  rewrite (IH _ _ H), (do_heap _ _ _ D), (do_heap_load _ _ _ L). reflexivity.
+Qed.
+
+Lemma save_pops_heap k : forall t acc saved t1, save_pops k t acc = Some (saved, t1) -> heap t1 = heap t.
+Proof.
+  induction k as [|k IH]; intros t acc saved t1 H; simpl in H; [inversion H; reflexivity|].
+  destruct (top t); [|discriminate]. destruct (do [OSave; OPop] t) as [tq|] eqn:D; [|discriminate].
+  rewrite (IH _ _ _ _ H), (do_heap _ _ _ D). reflexivity.
+Qed.
+
+Ltac Rstep_in X :=
+  repeat (rewrite ?R_bind, ?R_ret, ?R_assert, ?R_lift, ?R_raise, ?R_stack_m1, ?R_stack_m2, ?R_stack_m3, ?R_stack_m4,
+                  ?R_top_is, ?R_top2_are, ?R_gdo, ?R_i_load, ?R_p_index, ?py_index_0' in X;
+          cbn [mst stack nth_error is_proved is_pattern is_metavar phi mv_name] in X; cbv beta iota zeta in X).
+
+Ltac finish_heap E :=
+  let EHp := fresh "EHp" in
+  pose proof E as EHp;
+  match goal with |- Some (_, ?tt') = Some (_, _) => idtac | _ => idtac end;
+  match goal with
+  | |- context [heap ?t'] => idtac
+  | _ => idtac
+  end.
+
+Section Agree.
+Variable cv : conv.
+Variable axioms : list pat.
+Notation d := (cv_d cv).
+Notation sid := (cv_sid cv).
+Hypothesis HAX : forall a, In a (exported d) -> existsb (pat_eqb (axiom_pat d sid a)) axioms = true.
+Hypothesis HND : forall a, NoDup (map (mvid d) (metavars_in_order d a)).
+
+(** the instantiation block shared by the constructor and the axiom branch *)
+Lemma inst_tail_agree l i a x s t t' :
+  find_item d l = Some (i, IAx a) -> stack (mst t) = x :: s -> metavars_in_order d a <> [] ->
+  do_inst d a t = Some t' ->
+  R (t22 <- cv_get_metavars_in_order cv l ;; t25 <- gen_get_delta cv t22 ;; t26 <- i_instantiate x t25 ;; ret tt)%gen t
+  = Some (tt, t').
+Proof.
+  intros F HS NE D. unfold do_inst, inst_ids in D.
+  destruct (map (mvid d) (metavars_in_order d a)) as [|id ids] eqn:EI.
+  { destruct (metavars_in_order d a); [contradiction | discriminate]. }
+  rewrite <- EI in D. pose proof D as D0. apply do_one in D0 as [s' [HI _]].
+  cbn [irun] in HI. rewrite HS in HI.
+  destruct (pop_pats (length (rev (map (mvid d) (metavars_in_order d a)))) s) as [[plugs s2]|] eqn:PP; [|discriminate].
+  apply pop_pats_inv in PP as [Es Lp]. rewrite rev_length, map_length in Lp.
+  unfold cv_get_metavars_in_order. rewrite F. Rsimp.
+  rewrite (gen_get_delta_agree cv _ plugs x s2 t); [| rewrite HS, Es; reflexivity | exact Lp | intros v Hv; eapply mio_memN; exact Hv | apply HND].
+  Rsimp. rewrite (i_instantiate_agree x _ plugs s2 t t'); [Rsimp; reflexivity | rewrite HS, Es; reflexivity | rewrite map_length; exact Lp | exact D].
+Qed.
+
+Lemma ltb_len_nonempty {A} (l:list A) : Z.ltb 0 (py_len l) = match l with [] => false | _ => true end.
+Proof. destruct l; [reflexivity|]. unfold py_len. apply Z.ltb_lt. simpl length. lia. Qed.
+
+
+Lemma find_item_axiom_in l i a : find_item d l = Some (i, IAx a) -> In (IAx a) d /\ a_label a = l.
+Proof.
+  intros F. destruct (find_item_spec _ _ _ _ F) as [Nn EL]. split; [eapply nth_error_In; exact Nn | exact EL].
+Qed.
+
+Ltac kind_facts F C :=
+  unfold cv_pattern_constructors_has, cv_exported_axioms_has, cv_proof_rules_has, cv_fp_has, cv_kind;
+  rewrite ?F, ?C; cbv beta iota.
+
+(** one iteration of the main loop *)
+Theorem gen_exec_proof_step_agree labels applied t n t' :
+  tstep d sid labels n t = Some t' ->
+  R (gen_exec_proof_step cv axioms (mkPf (zenum 1 labels) applied) (py_len (zenum 1 labels)) (heap t) (Z.of_N n)) t
+  = Some (heap t', mkT (mst t') (heap t) (out t')).
+Proof.
+  intros H. unfold tstep in H. unfold gen_exec_proof_step. cbn [pf_labels]. unfold zdict_has.
+  rewrite labels_lookup.
+  destruct (N.eqb n 0) eqn:E0.
+  { (* Z *)
+    apply N.eqb_eq in E0. subst n. cbn [negb Z.of_N Z.eqb]. cbv iota.
+    destruct (top t) as [x|] eqn:T; [|discriminate]. destruct (do [OSave] t) as [t1|] eqn:D; [|discriminate].
+    inversion H; subst t'. clear H. cbn [mst heap out].
+    unfold top in T. destruct t as [[stk mem cl] h o]. cbn [mst stack hd_error] in T. destruct stk as [|y stk]; [discriminate|].
+    inversion T; subst y. unfold i_save. Rstep. rewrite term_eqb_refl'. Rstep. rewrite D. Rstep.
+    pose proof (do_heap _ _ _ D) as EHp. destruct t1 as [m1 h1 o1]. cbn in EHp |- *. subst h1. reflexivity. }
+  destruct (Nat.leb (N.to_nat n) (length labels)) eqn:EL.
+  2:{ (* back-reference *)
+    assert (EN: nth_error labels (N.to_nat n - 1) = None).
+    { apply nth_error_None. apply Nat.leb_gt in EL. lia. }
+    rewrite EN. cbn [negb]. cbv iota.
+    assert (EZ: Z.eqb (Z.of_N n) 0 = false) by (apply Z.eqb_neq; apply N.eqb_neq in E0; lia). rewrite EZ. cbv iota.
+    destruct (nth_error (heap t) (N.to_nat n - length labels - 1)) as [x|] eqn:EH; [|discriminate].
+    assert (EP: py_index (heap t) (Z.of_N n - py_len (zenum 1 labels) - 1) = Some x).
+    { unfold py_index, py_len. rewrite zenum_length. apply Nat.leb_gt in EL.
+      assert (E1: (Z.of_N n - Z.of_nat (length labels) - 1 <? 0)%Z = false) by (apply Z.ltb_ge; lia). rewrite E1.
+      rewrite <- EH. f_equal. lia. }
+    unfold p_index. rewrite EP. Rstep. rewrite H. Rstep.
+    pose proof (do_heap_load _ _ _ H) as EHp. destruct t' as [m1 h1 o1]. cbn in EHp |- *. subst h1. reflexivity. }
+  destruct (nth_error labels (N.to_nat n - 1)) as [l|] eqn:ENl; [|discriminate].
+  cbn [negb]. cbv iota. Rsimp.
+  unfold label_step in H.
+  destruct (find_item d l) as [[i [l' tc v|a|a pl st]]|] eqn:F; try discriminate.
+  - (* floating hypothesis *)
+    destruct (N.eqb tc tc_pattern) eqn:ET; [|discriminate].
+    kind_facts F F. unfold cv_get_floating_pattern_by_name. rewrite F, ET. Rsimp.
+    unfold i_metavar. Rstep. rewrite H. Rstep.
+    pose proof (do_heap _ _ _ H) as EHp. destruct t' as [m1 h1 o1]. cbn in EHp |- *. subst h1. reflexivity.
+  - destruct (find_item_axiom_in _ _ _ F) as [HIn EA].
+    destruct (classify a) eqn:C; try discriminate.
+    + kind_facts F C. unfold ctor_step in H. rewrite EA in H.
+      assert (GEN: forall (Hg : match do (emit_pat (concl_pat d sid a)) t with Some t1 => do_inst d a t1 | None => None end = Some t'),
+        R (t19 <- cv_get_axiom_by_name cv l ;; let v_pca := t19 in t20 <- i_pattern (ax_pattern cv v_pca) ;;
+           (if (Z.ltb (0)%Z (py_len (ax_metavars cv v_pca))) then (t21 <- p_stack_at (- (1)%Z)%Z ;; let v_pat := t21 in py_assert (is_pattern v_pat) ;;; t22 <- cv_get_metavars_in_order cv l ;; t25 <- gen_get_delta cv t22 ;; t26 <- i_instantiate v_pat t25 ;; ret tt) else (ret tt)) ;;; ret (heap t))%gen t
+        = Some (heap t', mkT (mst t') (heap t) (out t'))).
+      { intros Hg. destruct (do (emit_pat (concl_pat d sid a)) t) as [t1|] eqn:D1; [|discriminate].
+        rewrite R_bind. unfold cv_get_axiom_by_name at 1. rewrite F, R_lift. cbv beta iota zeta.
+        rewrite R_bind. unfold i_pattern, ax_pattern. rewrite R_gdo, D1. cbv beta iota.
+        rewrite R_bind. rewrite ltb_len_nonempty. unfold ax_metavars.
+        pose proof (do_emit_pat _ _ _ (concl_pat_simple d sid a) D1) as ES.
+        pose proof (do_heap _ _ _ D1) as EH1. pose proof (do_inst_heap _ _ _ _ Hg) as EH2.
+        destruct (metavars_in_order d a) as [|v0 vs] eqn:EM.
+        - unfold do_inst, inst_ids in Hg. rewrite EM in Hg. simpl in Hg. inversion Hg; subst t1. repeat (rewrite R_ret; cbv beta iota).
+          destruct t' as [m1 h1 o1]. cbn in EH1 |- *. subst h1. reflexivity.
+        - rewrite R_bind, R_stack_m1, ES. cbn [nth_error]. cbv beta iota zeta. rewrite R_bind, R_assert. cbn [is_pattern]. cbv iota.
+          rewrite (inst_tail_agree l i a _ _ t1 t' F ES); [| rewrite EM; discriminate | exact Hg].
+          cbv beta iota. repeat (rewrite R_ret; cbv beta iota). destruct t' as [m1 h1 o1]. cbn in EH1, EH2 |- *. subst h1. rewrite EH1. reflexivity. }
+      destruct l; cbn [label_eqb]; cbv iota; try (apply GEN; exact H).
+      * pose proof H as H0. apply do_one in H0 as [s' [HI _]]. destruct t as [[stk mem cl] h o]. cbn [irun mst stack] in HI.
+        destruct stk as [|[r|r] [|[l0|l0] s]]; try discriminate.
+        unfold i_implies. Rstep. rewrite !term_eqb_refl'. cbn [andb]. Rstep. rewrite H. Rstep.
+        pose proof (do_heap _ _ _ H) as EHp. destruct t' as [m1 h1 o1]. cbn in EHp |- *. subst h1. reflexivity.
+      * pose proof H as H0. apply do_one in H0 as [s' [HI _]]. destruct t as [[stk mem cl] h o]. cbn [irun mst stack] in HI.
+        destruct stk as [|[r|r] [|[l0|l0] s]]; try discriminate.
+        unfold i_app. Rstep. rewrite !term_eqb_refl'. cbn [andb]. Rstep. rewrite H. Rstep.
+        pose proof (do_heap _ _ _ H) as EHp. destruct t' as [m1 h1 o1]. cbn in EHp |- *. subst h1. reflexivity.
+    + kind_facts F C. unfold ctor_step in H. rewrite EA in H.
+      assert (GEN: forall (Hg : match do (emit_pat (concl_pat d sid a)) t with Some t1 => do_inst d a t1 | None => None end = Some t'),
+        R (t19 <- cv_get_axiom_by_name cv l ;; let v_pca := t19 in t20 <- i_pattern (ax_pattern cv v_pca) ;;
+           (if (Z.ltb (0)%Z (py_len (ax_metavars cv v_pca))) then (t21 <- p_stack_at (- (1)%Z)%Z ;; let v_pat := t21 in py_assert (is_pattern v_pat) ;;; t22 <- cv_get_metavars_in_order cv l ;; t25 <- gen_get_delta cv t22 ;; t26 <- i_instantiate v_pat t25 ;; ret tt) else (ret tt)) ;;; ret (heap t))%gen t
+        = Some (heap t', mkT (mst t') (heap t) (out t'))).
+      { intros Hg. destruct (do (emit_pat (concl_pat d sid a)) t) as [t1|] eqn:D1; [|discriminate].
+        rewrite R_bind. unfold cv_get_axiom_by_name at 1. rewrite F, R_lift. cbv beta iota zeta.
+        rewrite R_bind. unfold i_pattern, ax_pattern. rewrite R_gdo, D1. cbv beta iota.
+        rewrite R_bind. rewrite ltb_len_nonempty. unfold ax_metavars.
+        pose proof (do_emit_pat _ _ _ (concl_pat_simple d sid a) D1) as ES.
+        pose proof (do_heap _ _ _ D1) as EH1. pose proof (do_inst_heap _ _ _ _ Hg) as EH2.
+        destruct (metavars_in_order d a) as [|v0 vs] eqn:EM.
+        - unfold do_inst, inst_ids in Hg. rewrite EM in Hg. simpl in Hg. inversion Hg; subst t1. repeat (rewrite R_ret; cbv beta iota).
+          destruct t' as [m1 h1 o1]. cbn in EH1 |- *. subst h1. reflexivity.
+        - rewrite R_bind, R_stack_m1, ES. cbn [nth_error]. cbv beta iota zeta. rewrite R_bind, R_assert. cbn [is_pattern]. cbv iota.
+          rewrite (inst_tail_agree l i a _ _ t1 t' F ES); [| rewrite EM; discriminate | exact Hg].
+          cbv beta iota. repeat (rewrite R_ret; cbv beta iota). destruct t' as [m1 h1 o1]. cbn in EH1, EH2 |- *. subst h1. rewrite EH1. reflexivity. }
+      destruct l; cbn [label_eqb]; cbv iota; try (apply GEN; exact H).
+      * pose proof H as H0. apply do_one in H0 as [s' [HI _]]. destruct t as [[stk mem cl] h o]. cbn [irun mst stack] in HI.
+        destruct stk as [|[r|r] [|[l0|l0] s]]; try discriminate.
+        unfold i_implies. Rstep. rewrite !term_eqb_refl'. cbn [andb]. Rstep. rewrite H. Rstep.
+        pose proof (do_heap _ _ _ H) as EHp. destruct t' as [m1 h1 o1]. cbn in EHp |- *. subst h1. reflexivity.
+      * pose proof H as H0. apply do_one in H0 as [s' [HI _]]. destruct t as [[stk mem cl] h o]. cbn [irun mst stack] in HI.
+        destruct stk as [|[r|r] [|[l0|l0] s]]; try discriminate.
+        unfold i_app. Rstep. rewrite !term_eqb_refl'. cbn [andb]. Rstep. rewrite H. Rstep.
+        pose proof (do_heap _ _ _ H) as EHp. destruct t' as [m1 h1 o1]. cbn in EHp |- *. subst h1. reflexivity.
+    + admit.
+    + admit.
+Admitted.
